@@ -849,6 +849,36 @@ class Verifier(InspectMixin, QuantMixin, LoopMixin, ExprMixin, CallMixin, StmtMi
         self.st.ghost['gathers'] = g         # number of asyncio.gather calls (C10: concurrency is only entered there)
         self._add_axiom(g >= 0)
 
+    def havoc_containers(self) -> None:
+        """coarse frame entry '$containers': the contents (items / entries) of ANY pre-existing list, dict or set may have
+        changed - the container heap gets a new base; the cells of objects allocated by the analysed call are kept.
+        Attribute cells are untouched.  (Field typing invariants are re-assumed lazily on the new base.)"""
+        self.hv_count = getattr(self, 'hv_count', 0) + 1
+
+        def rebuild(arr, name, sort):
+            keep = []
+            cur = arr
+            while z3.is_app(cur) and cur.decl().kind() == z3.Z3_OP_STORE:
+                idx = smt.simp(cur.arg(1))
+                if z3.is_int_value(idx) and idx.as_long() >= smt.FRESH_BASE:
+                    keep.append((idx, cur.arg(2)))
+                cur = cur.arg(0)
+            base = z3.Const(f'{name}!hv{self.hv_count}_{self.fresh_counter}', sort)
+            seen = set()
+            for idx, val in keep:                       # outermost store first: it wins
+                if idx.as_long() in seen:
+                    continue
+                seen.add(idx.as_long())
+            out = base
+            done = set()
+            for idx, val in reversed(keep):
+                out = z3.Store(out, idx, val)
+            return out
+        self.st.dct = rebuild(self.st.dct, 'H_dict', self.st.dct.sort())
+        self.st.dlen = rebuild(self.st.dlen, 'H_dlen', self.st.dlen.sort())
+        self.st.seq = rebuild(self.st.seq, 'H_seq', self.st.seq.sort())
+        self.writes.append(('$containers', z3.IntVal(-1), ''))
+
     def havoc_ghost(self, g: str) -> None:
         """the callee / loop may have appended events: the length grows by d >= 0, earlier events are
         unchanged (prefix axioms are instantiated where events are read)"""
@@ -1168,7 +1198,7 @@ class Verifier(InspectMixin, QuantMixin, LoopMixin, ExprMixin, CallMixin, StmtMi
                 self.bound_ref(res)
                 self._add_axiom(res != smt.ABSENT)
         env2 = dict(env)
-        env2['result'] = res
+        env2['ret' if 'result' in env else 'result'] = res
         cur = getattr(self, 'current_contract', None)
         only = (cur.extra.get('callee_ensures_only', {}) if cur is not None else {}).get(ct.target)
         for cl in ct.ensures:
@@ -1231,7 +1261,7 @@ class Verifier(InspectMixin, QuantMixin, LoopMixin, ExprMixin, CallMixin, StmtMi
         mod = self.index.modules.get(ct.module)
         pre = {}
         for loc in ct.modifies:
-            if not (loc == '$fresh' or (loc.startswith('$') and '(' not in loc)):
+            if not (loc in ('$fresh', '$containers') or (loc.startswith('$') and '(' not in loc)):
                 pre[loc] = self.loc_target(loc, env, mod)
         for loc in ct.modifies:
             self.havoc_location(loc, env, pre.get(loc))
@@ -1251,6 +1281,9 @@ class Verifier(InspectMixin, QuantMixin, LoopMixin, ExprMixin, CallMixin, StmtMi
                     n = self.fresh('hv_dlen', smt.I)
                     self._add_axiom(n >= 0)
                     self.st.dlen = z3.Store(self.st.dlen, r, n)
+            return
+        if loc == '$containers':
+            self.havoc_containers()
             return
         if loc.startswith('$') and '(' not in loc:
             self.havoc_ghost(loc[1:])
@@ -1502,7 +1535,8 @@ class Verifier(InspectMixin, QuantMixin, LoopMixin, ExprMixin, CallMixin, StmtMi
 
     def check_return(self, fi: FuncInfo, ct: Contract, vals: Dict[str, Any], result) -> None:
         env = dict(vals)
-        env['result'] = result
+        # the return value is `result` in postconditions - `ret` where the function has a PARAMETER called result
+        env['ret' if 'result' in vals else 'result'] = result
         skip = set(ct.extra.get('assumed_clauses', ()))
         if ct.returns_iff is not None and 'returns_iff' not in skip:
             saved = self.st.snapshot()
@@ -1651,7 +1685,13 @@ class Verifier(InspectMixin, QuantMixin, LoopMixin, ExprMixin, CallMixin, StmtMi
             del self.writes[w0:]
             self.st.restore(cur)
         for f, r, g in todo:
+            if f == '$containers':
+                self.oblige('frame', 'a callee may change the contents of any pre-existing container ($containers), which '
+                                     'this contract does not list', z3.BoolVal('$containers' in ct.modifies), fprops)
+                continue
             opts = [r >= smt.FRESH_BASE]
+            if '$containers' in ct.modifies and f in ('$seq', '$dict'):
+                continue
             for kind, ar, attr, ok in allowed:
                 if (kind == 'attr' and f == attr) or (kind == 'seq' and f == '$seq') or \
                         (kind == 'dict' and f == '$dict') or (kind == 'contents' and f in ('$seq', '$dict')):
